@@ -562,3 +562,14 @@ def long_histories(depth, pairs=("da", "dt", "at", "dx", "tx")):
             for h in itertools.product(ab, repeat=k):
                 out.append("".join(h))
     return sorted(set(out))
+
+
+def visit_history(res, lay, h, extra=()):
+    """Abstract loop states visited by one history: (layout, previous mode, mode, iterations in this mode capped at 3)."""
+    prev = None
+    n = 0
+    for m in h:
+        e = EFFECTIVE[m]
+        n = n + 1 if e == prev else 1
+        res.visit(lay["name"], prev, m, min(n, 3), *extra)
+        prev = e
